@@ -150,14 +150,15 @@ def run(repo, rep, tier):
               'for the entries %s the tasks submitted are %s' % (ent2, r2['submitted']), stmt='one scan per entry')
     rep.check('dial', 'each task receives the host and the port of the parsed pair it stands for, in that order', r['submitted'] == want, mn, 'tasks submitted with (host, port) = %s, the parsed pairs are %s' % (r['submitted'], want), stmt='tasks per parsed pair')
     # command line: the statements aconf.host / aconf.port depend on are sliced out of process_commandline and interpreted (props/_cmdline.py) for every
-    # combination of positional target, -p, client audit: without -p the target is split by Utils.parse_host_and_port and both parts are stored; with -p the
-    # positional argument is the host as written and the port is the -p value, which must lie in 1..65535; a client audit listens on 2222 unless -p says otherwise;
-    # a missing host is rejected
+    # combination of positional target, -p, client audit: the target is split by Utils.parse_host_and_port with the -p value (else 22) as the default port
+    # and both parts are stored -- a port written in the target itself wins over -p, as in a targets file; the -p value must lie in 1..65535; a client audit
+    # listens on 2222 unless -p says otherwise; a missing host is rejected
     from props import _cmdline
-    P_ = lambda v: (('H<%s>' % v) if v else '', 'P<%s>' % v)       # noqa: E731 -- marker for "what parse_host_and_port returned for v"
-    cases = [(('h', None, False), ('H<h>', 'P<h>')), (('h:2022', None, False), ('H<h:2022>', 'P<h:2022>')), (('[::1]:2022', None, False), ('H<[::1]:2022>', 'P<[::1]:2022>')),
-             (('h', '2222', False), ('h', 2222)), (('h:1', '1', False), ('h:1', 1)), (('h', '65535', False), ('h', 65535)),
-             (('', None, False), ('exit', None)), (('h', '0', False), ('exit', None)), (('h', '65536', False), ('exit', None)), (('h', '-5', False), ('exit', None)),
+    P_ = lambda v, dp: (('H<%s>' % v) if v else '', 'P<%s|default %s>' % (v, dp))       # noqa: E731 -- marker for "what parse_host_and_port returned for v with that default port"
+    cases = [(('h', None, False), ('H<h>', 'P<h|default 22>')), (('h:2022', None, False), ('H<h:2022>', 'P<h:2022|default 22>')), (('[::1]:2022', None, False), ('H<[::1]:2022>', 'P<[::1]:2022|default 22>')),
+             (('h', '2222', False), ('H<h>', 'P<h|default 2222>')), (('h:1', '2', False), ('H<h:1>', 'P<h:1|default 2>')), (('[::1]:2022', '2222', False), ('H<[::1]:2022>', 'P<[::1]:2022|default 2222>')),
+             (('h', '65535', False), ('H<h>', 'P<h|default 65535>')),
+             (('', None, False), ('exit', None)), (('h', '0', False), ('exit', None)), (('h', '65536', False), ('exit', None)), (('h', '-5', False), ('exit', None)), (('', '2222', False), ('exit', None)),
              (('', None, True), ('', 2222)), (('', '2200', True), ('', 2200)), (('', '0', True), ('exit', None))]
     badc = []
     for (host_arg, oport, client), want in cases:
@@ -165,7 +166,7 @@ def run(repo, rep, tier):
         rep.evals()
         if got != want:
             badc.append('target %r%s%s -> host/port %r, expected %r' % (host_arg, ' -p %s' % oport if oport is not None else '', ' (client audit)' if client else '', got, want))
-    rep.check('dial', 'command line: host and port stored are the parsed target, or the host as written with the -p value (1..65535); client audits default to 2222 (%d cases)' % len(cases), not badc, pc,
+    rep.check('dial', 'command line: host and port stored are the target parsed with the -p value (1..65535, else 22) as default port; client audits default to 2222 (%d cases)' % len(cases), not badc, pc,
               'command-line target selection changed -- %s' % (badc[0] if badc else ''), stmt='command line host/port')
 
     # ---- rule 2: labels --------------------------------------------------------------------------------------------------
